@@ -3,7 +3,7 @@ import GdVerif.Lemmas.Battalion
   C07 — single-game protocols map every field: Battalion 1944.
 
   MODEL: `GdVerif/Proto/Battalion.lean` = `Valve.query` (engine app 489940, default gathering, no retries)
-         + `applyOverrides` + `gameResponseOf`.
+         + `applyOverrides` + `Games.gameView`.
   SPEC:  `GdVerif/Spec/Battalion.lean` on top of `Spec/Valve.lean`.
   The three replies are decoded by the Valve parsers (C02).
 -/
@@ -15,7 +15,7 @@ response the game's user is entitled to — each override present replaces its f
 the players and all other rules are carried over unchanged. -/
 theorem C07_battalion (cfg : Config) (st : State) (h : Battalion.Spec.wf cfg st = true) :
     (Valve.Spec.expected (Battalion.Spec.batConfig cfg) st >>= Battalion.applyOverrides
-        >>= fun r => pure (Battalion.gameResponseOf r))
+        >>= fun r => pure (Games.gameView r))
       = Battalion.Spec.expected st :=
   Battalion.overrides_expected cfg st h
 
